@@ -45,6 +45,9 @@ def run_isolated(fn, arg, timeout=120.0):
         code = 0
         try:
             os.close(rfd)
+            # library code may print (CTLS error path); never onto our stdout
+            dn = os.open(os.devnull, os.O_WRONLY)
+            os.dup2(dn, 1)
             try:
                 out = ('ok', fn(arg))
             except BaseException:
